@@ -194,3 +194,19 @@ def _read_lsb0(advance):
 from . import sources as _sources  # noqa: E402  (registers the source contracts first)
 for _q in ('bits.Bits._setbytes_with_truncation', 'bits.Bits._setbitarray', 'bits.Bits._setfile', 'bits.Bits._setauto'):
     add_lsb0(_q, custom=REGISTRY[_q].spec, extra_props={'C08'})
+
+
+# ---- whole-value interpretations and encodings are identical in both modes (C12; and C18's le/be/ne relations must not depend
+# ---- on the numbering option either)
+from . import values as _values, floats as _floats  # noqa: E402
+for _q in [f'bits.Bits._get{n}' for n in ('uint', 'int', 'uintbe', 'intbe', 'uintle', 'intle', 'hex', 'oct', 'bytes')] + \
+          ['bits.Bits._getbin', 'bits.Bits._getbool', 'bits.Bits._getfloatbe', 'bits.Bits._getfloatle'] + \
+          [f'bits.Bits._set{n}' for n in ('uint', 'int', 'uintbe', 'intbe', 'uintle', 'intle')]:
+    if _q in REGISTRY:
+        add_lsb0(_q, custom=REGISTRY[_q].spec, extra_props=set(REGISTRY[_q].props) & {'C18', 'C02'})
+# the shift contracts' lsb0 shapes also serve C16 (shifts keep their direction relative to the most significant end)
+for _q in ('bits.Bits.__lshift__', 'bits.Bits.__rshift__', 'bitarray_.BitArray.__ilshift__', 'bitarray_.BitArray.__irshift__',
+           'bits.Bits.__and__', 'bits.Bits.__invert__'):
+    for _sh in REGISTRY[_q].shapes:
+        if _sh.opts.get('lsb0') and _sh.props is not None:
+            _sh.props = set(_sh.props) | {'C16'}
